@@ -24,7 +24,16 @@ func c04Scope(e *Engine, f *ssa.Function) bool {
 	case v5Path, rootPath:
 		return base == "patch.go" || base == "merge.go" || base == "errors.go"
 	case jsonPath:
-		return base == "scanner.go"
+		// the scanner, and the helpers of the codec that need no reflection (the reflective decoder/encoder
+		// bodies are out of reach and stay assumed)
+		if base == "scanner.go" {
+			return true
+		}
+		switch f.Name() {
+		case "compact", "Compact", "HTMLEscape", "getu4", "isValidNumber", "newline", "nonSpace", "foldFunc", "asciiEqualFold", "simpleLetterEqualFold", "unquoteBytes", "unquote":
+			return f.Signature.Recv() == nil
+		}
+		return false
 	}
 	return false
 }
